@@ -285,6 +285,20 @@ def check_estimators(run, A):
                               construct=f'R-EIN::{q}::mass')
             n += 1
     run.floor('weighted estimator contractions', n, 10)
+    # unweighted normaliser: the number of observations N (axis -2 of (..., N, D); last axis of the cACG quadratic form)
+    for q, want in ((D + 'complex_watson::ComplexWatsonTrainer._fit', ('y', -2)), (D + 'complex_bingham::ComplexBinghamTrainer._fit', ('y', -2)),
+                    (D + 'complex_circular_symmetric_gaussian::ComplexCircularSymmetricGaussianTrainer._fit', ('y', -2)), (D + 'gaussian::GaussianTrainer._fit', ('y', -2))):
+        fn = A.prog.func(q)
+        g = A.graphs.get(fn)
+        arrs = [e.term for e in g.events if e.kind == 'call' and is_call_to(e.term, 'numpy.array') and call_arg(e.term, 0) is not None
+                and strip_views(call_arg(e.term, 0)).op == 'sub' and strip_views(call_arg(e.term, 0)).args[0].op == 'attr' and strip_views(call_arg(e.term, 0)).args[0].args[1] == 'shape']
+        ok = bool(arrs)
+        for t in arrs:
+            a = strip_views(call_arg(t, 0))
+            base = strip_views(a.args[0].args[0])
+            ok = ok and base.op == 'param' and base.args[0] == want[0] and const_val(a.args[1]) == want[1]
+        run.check(ok, 'R-EIN', f'{q.split("::")[1]}: unweighted estimate divides by the number of observations', fn.loc(), f'{want[0]}.shape[{want[1]}]',
+                  f'the saliency-free normaliser is not {want[0]}.shape[{want[1]}] (number of observations)', construct=f'R-EIN::{q}::unweighted-normaliser')
     # cACG Tyler update: D * sum z z^H saliency / quadratic_form / mass
     q = D + 'complex_angular_central_gaussian::ComplexAngularCentralGaussianTrainer._fit'
     fn = A.prog.func(q)
